@@ -9,9 +9,9 @@
 (*             tq    |-> returned time column / dt as integers ("lin",     *)
 (*                       "log"), tq_ok |-> 1 iff integral to 1e-9,         *)
 (*             x4zero |-> 1 iff the whole X4_Qt column is exactly 0]]      *)
-(* Call histories: consecutive records with first = 0 are further calls on  *)
-(* the analysis object of the preceding record (same sid); the variable ob *)
-(* carries what the object was constructed from and how many calls it has  *)
+(* Call histories: a record with first = 0 is a further call on the        *)
+(* analysis object sid of an earlier record; the variable ob maps every    *)
+(* object to what it was constructed from and how many calls it has        *)
 (* served.  Such a record must agree with it in everything the constructor *)
 (* sees (clause BadSession otherwise); its expectation is computed from    *)
 (* its own arguments and the trajectory only - ob is not an argument.      *)
@@ -32,8 +32,9 @@ vars == <<l, bad, st, ob>>
 \* what the constructor of the analysis object sees of a record
 Ctor(rec) == [ cls |-> IF rec.op = "log" THEN "log" ELSE "lin", tsq |-> rec.tsq, dt |-> rec.dt,
                c |-> [rec.c EXCEPT !.q = 0, !.hasCond = 0, !.cond = << >>] ]
-ObNone == [sid |-> 0 - 1, ctor |-> << >>, calls |-> 0]
-SessionOK(rec) == rec.first = 1 \/ (ob.sid = rec.sid /\ ob.ctor = Ctor(rec))
+\* ob: the objects constructed so far, sid -> [ctor, calls]
+SessionOK(rec) == rec.first = 1 \/ (rec.sid \in DOMAIN ob /\ ob[rec.sid].ctor = Ctor(rec))
+CallNo(rec) == IF rec.first = 1 THEN 1 ELSE ob[rec.sid].calls + 1
 
 WellFormed(rec) ==
   LET c == rec.c IN
@@ -58,12 +59,12 @@ Why(rec) ==
 
 Expected(rec, state) ==
   [ rec    |-> l, op |-> rec.op, counts |-> state.counts,
-    call   |-> IF rec.first = 1 THEN 1 ELSE ob.calls + 1,
+    call   |-> CallNo(rec),
     rows   |-> IF rec.op = "s4" THEN << >>
                ELSE [k \in 1..(rec.c.T - 1) |-> RowT(rec.c, rec.op, k, rec.tsq, rec.dt)],
     s4     |-> IF rec.op = "s4" THEN S4Exp(rec.c, rec.nt, rec.numofq) ELSE << >> ]
 
-Init == /\ l = 1 /\ bad = "" /\ ob = ObNone
+Init == /\ l = 1 /\ bad = "" /\ ob = << >>
         /\ st = IF Len(Tr) >= 1 THEN StInit(Tr[1].c, Tr[1].op, Tr[1].nt) ELSE [done |-> TRUE]
 Acc == /\ l <= Len(Tr) /\ bad = "" /\ ~st.done
        /\ st' = StAcc(Tr[l].c, Tr[l].op, st, FALSE)
@@ -74,8 +75,8 @@ Finish == /\ l <= Len(Tr) /\ bad = "" /\ st.done
              THEN /\ PrintT(ToJson(Expected(Tr[l], st)))
                   /\ l' = l + 1 /\ bad' = ""
                   /\ st' = IF l + 1 <= Len(Tr) THEN StInit(Tr[l + 1].c, Tr[l + 1].op, Tr[l + 1].nt) ELSE st
-                  /\ ob' = [sid |-> Tr[l].sid, ctor |-> Ctor(Tr[l]),
-                            calls |-> IF Tr[l].first = 1 THEN 1 ELSE ob.calls + 1]
+                  /\ ob' = [s \in (DOMAIN ob) \cup {Tr[l].sid} |->
+                              IF s = Tr[l].sid THEN [ctor |-> Ctor(Tr[l]), calls |-> CallNo(Tr[l])] ELSE ob[s]]
              ELSE /\ bad' = w /\ UNCHANGED <<l, st, ob>>
 Next == Acc \/ Finish
 Spec == Init /\ [][Next]_vars
